@@ -211,6 +211,9 @@ class Executor(threading.Thread):
         if not self.is_alive():
             raise RuntimeError('Executor not running')
         outcome = futures.Future()
+        # the task can not be recalled from the pool: a caller giving up must not turn the later result delivery into an
+        # InvalidStateError (which would terminate this executor and with it all other requests of the model)
+        outcome.set_running_or_notify_cancel()
         self._pending[self._index] = outcome
         self._tasks.put(Task(self._index, entry))
         self._index += 1
